@@ -291,8 +291,27 @@ static void sweep_put(F& x, uint64_t idx, uint64_t prec_bits) {   // idx in [0, 
   Int m = palette_int(idx % 36, 2); long ex = (long[]){-1, 0, 1, 3}[(idx / 36) % 4]; bool neg = idx >= 144; x.mk(prec_bits); size_t n = m.m.size();
   for (size_t i = 0; i < n; i++) x.f->_mp_d[i] = m.m[i]; x.f->_mp_size = neg ? -(int)n : (int)n; x.f->_mp_exp = n ? ex : 0; for (size_t i = n; i < (size_t)x.f->_mp_prec + 1; i++) x.f->_mp_d[i] = 0xdeadbeefdeadbeefull; x.v = read_mpf(x.f);
 }
-static uint64_t sweep_count() { return 288ull * 288ull * 2ull; }
+static const uint64_t SWEEP_PAL = 288ull * 288ull * 2ull, SWEEP_DIVX = 7 * 3 * 5 * 2 * 4;
+static uint64_t sweep_count() { return SWEEP_PAL + SWEEP_DIVX; }
+// exact division on a dividend that is longer than its precision (legal after mpf_set_prec_raw): every relation between the dividend's size, the divisor's
+// size and the precision around the point where mpf_div chops the dividend (usize = 2*prec + vsize + -2..2), in place and with a distinct destination;
+// all operands and the quotient fit the precision, so the result must be exact
+static void sweep_divx(uint64_t j, CaseInfo& ci) {
+  uint64_t P = 2 + j % 7; j /= 7; size_t vn = 1 + (size_t)(j % 3); j /= 3; long dl = (long)(j % 5) - 2; j /= 5; bool inplace = j % 2; j /= 2; unsigned var = (unsigned)(j % 4);
+  uint64_t pbits = 64 * (P - 1); size_t xn = (size_t)((long)(2 * P + vn) + dl);
+  uint64_t v0 = var == 1 ? 0xfffffull : var == 2 ? 3 : 0x10001ull; Int q = var == 0 ? Int::from_u64((3ull << 32) + 1) : var == 1 ? ref::pow2(pbits - 22) + Int(1) : var == 2 ? ref::pow2(pbits - 2) - Int(1) : ref::pow2(pbits - 20) - ref::pow2(pbits / 2) + Int(7);
+  if (P == 2 && var == 0) q = Int(0x30001);   // keep q*v0 within 64 bits
+  Int xi = q * Int::from_u64(v0); size_t xl = xi.m.size(); if (xl > xn) return; F x, v, r; x.mk(64 * (xn + 1)); v.mk(64 * (vn + 1));
+  for (size_t k = 0; k < xn; k++) x.f->_mp_d[k] = k < xn - xl ? 0 : xi.m[k - (xn - xl)]; x.f->_mp_size = (var & 1) ? -(int)xn : (int)xn; x.f->_mp_exp = 2;
+  for (size_t k = 0; k < vn; k++) v.f->_mp_d[k] = k + 1 < vn ? 0 : v0; v.f->_mp_size = (int)vn; v.f->_mp_exp = 1;
+  x.v = read_mpf(x.f); v.v = read_mpf(v.f); x.lower_raw(pbits); r.mk(pbits); REQUIRE((uint64_t)x.f->_mp_prec == P, "harness: precision after mpf_set_prec_raw is %d limbs, expected %llu", x.f->_mp_prec, (unsigned long long)P);
+  ci.d("mpf_div(%s) prec %llu limbs, dividend %zu limbs (low %zu zero), divisor %zu limbs: x=%s v=%s", inplace ? "x,x,v" : "r,x,v", (unsigned long long)P, xn, xn - xl, vn, dshow(x.v).c_str(), dshow(v.v).c_str());
+  mpf_ptr o = inplace ? x.f : r.f; Dy x0 = x.v; mpf_div(o, x.f, v.f); REQUIRE_FWF(o, "mpf_div"); Dy g = read_mpf(o);
+  REQUIRE(deq(dmul(g, v.v), x0), "mpf_div (%s, dividend of %zu limbs at a precision of %llu limbs, divisor of %zu limbs): operands and quotient fit the precision but the result is not exact: got %s", inplace ? "in place" : "distinct destination", xn, (unsigned long long)P, vn, dshow(g).c_str());
+  if (!inplace) REQUIRE(deq(read_mpf(x.f), x0), "mpf_div: dividend modified");
+}
 static void sweep_item(uint64_t i, CaseInfo& ci) {
+  if (i >= SWEEP_PAL) { sweep_divx(i - SWEEP_PAL, ci); return; }
   uint64_t ia = i % 288, ib = (i / 288) % 288; uint64_t p = (i / (288 * 288)) ? 128 : 64; F a, b, r; sweep_put(a, ia, 128); sweep_put(b, ib, 128); r.mk(p); uint64_t pp = mpf_get_prec(r.f);
   ci.d("a=%s b=%s dest %llu bits", dshow(a.v).c_str(), dshow(b.v).c_str(), (unsigned long long)p); bool fit = fitsp(a.v, pp) && fitsp(b.v, pp);
   { Dy e = dadd(a.v, b.v); mpf_add(r.f, a.f, b.f); judge("mpf_add", r.f, Ex{e.m, Int(1), e.e}, pp, fit, ci); }
